@@ -11,6 +11,7 @@ oracle   : the property itself on the binary's stdout / liveness / exit status /
 import concurrent.futures
 import json
 import os
+import re
 import shutil
 import time
 
@@ -257,7 +258,10 @@ def gen_script(rng, maxlen):
         elif r < 90:
             m = rng.choice(NOTES)
             t, kind = target()
-            while kind == "dir":      # notifications about directories are not generated (see notes/C01.md)
+            # notifications about directories are not generated (see notes/C01.md); nor about file uris OUTSIDE the workspace:
+            # a didOpen / didChange would make such a uri a live document, which the model's file system does not contain
+            # (requests about them are generated: they must be answered, with an error)
+            while kind == "dir" or (kind == "other" and t.startswith("Ofile%{3a}%{2f}%{2f}%{2f}")):
                 t, kind = target()
             msg = {"k": "not", "method": m, "target": t}
             if m == "textDocument/didChange":
@@ -493,21 +497,37 @@ ANALYSIS = {"textDocument/diagnostic", "textDocument/definition", "textDocument/
 
 
 def concurrent_same_document(s, missing):
-    """the unanswered requests are >= 2 pipelined analysis requests about ONE document, a diagnostic among
-    them: the shape of the publication race of C03 (a second annotation replaces the published tree while
-    the first request already walks it; recursive read lock vs pending write lock)"""
+    """the shape of the recorded publication race (C03): among the unanswered requests there are >= 2 pipelined analysis
+    requests about ONE document, a diagnostic among them (a second annotation replaces the published tree while the first
+    request already walks it; recursive read lock vs pending write lock) — and every other unanswered request is an
+    analysis request too: it waits for a lock the deadlocked pair holds (the document, its parent, the class map)"""
     by_id = {m["id"]: m for m in s.msgs if m["k"] == "req"}
     ms = [by_id[i] for i in missing if i in by_id]
     if len(ms) < 2 or len(ms) != len(missing):
         return False
     if any(m["method"] not in ANALYSIS for m in ms):
         return False
-    if len({m["target"] for m in ms}) != 1:
-        return False
+    # the two annotations meet on ONE document, but that document need not be the one either request names: a request
+    # about a class annotates its parent and its used entities too (supertypes on aThird (aSecond) + diagnostic on aSecond).
+    # The texts change during a session, so the relation is not recomputed here: the shape is ">= 2 unanswered analysis
+    # requests, a diagnostic among them, nothing else unanswered"
     return any(m["method"] == "textDocument/diagnostic" for m in ms)
 
 
-KNOWN_HANGS = ("C01:hang-inheritance-cycle", "C01:hang-concurrent-analysis-same-document",
+def startup_job_overlap(s, missing):
+    """the same race with the START-UP job as the other party: `analyze_core_files` analyses every file of the WAM* / WF*
+    directories on a pool worker while the first requests arrive; an analysis request about such a file (or one that
+    reaches it) can meet the job's half-published annotation of that document and deadlock with it.  Shape: the
+    workspace has core directories and every unanswered request is an analysis request"""
+    import re as _re
+    if not any(_re.search(r"(^|/)(WAM|WF)\w*/", r) for r in s.files):
+        return False
+    by_id = {m["id"]: m for m in s.msgs if m["k"] == "req"}
+    ms = [by_id[i] for i in missing if i in by_id]
+    return bool(ms) and len(ms) == len(missing) and all(m["method"] in ANALYSIS for m in ms)
+
+
+KNOWN_HANGS = ("C01:hang-inheritance-cycle", "C01:hang-concurrent-analysis-same-document", "C01:hang-startup-analysis-overlaps-request",
                "C01:response-lost-on-protocol-error")
 
 
@@ -517,13 +537,20 @@ def hang_signature(s, obs, ids):
     # cycles are generated (they no longer hang: fixed under C14), a cycle somewhere in the workspace explains nothing by itself
     if concurrent_same_document(s, missing):
         return "C01:hang-concurrent-analysis-same-document"
+    if startup_job_overlap(s, missing):
+        return "C01:hang-startup-analysis-overlaps-request"
     if has_inheritance_cycle(s):
         return "C01:hang-inheritance-cycle"
     return None
 
 
-def panic_signature(obs):
+def panic_signature(obs, ending=None):
     msg = obs.get("panic_msg", "")
+    if ending == "shutdown-other" and not obs.get("alive") and not re.search(r"panicked at src/", msg):
+        # the client sent something else than `exit` after `shutdown`: main() leaves through the protocol error while pool
+        # workers are still running; a worker that then writes to the closed channel panics inside a LIBRARY frame
+        # (/root/.cargo/…, not src/) as the process goes down — the same recorded mechanism as the lost responses
+        return "C01:response-lost-on-protocol-error"
     if "document_service.rs" in msg and ("NotFound" in msg or "No such file" in msg):
         return "C01:panic-missing-file"
     return "C01:panic-in-handler"
@@ -542,7 +569,7 @@ def evaluate(s, obs):
         if n == 0:
             m = by_id[i]
             if obs.get("panicked"):
-                sig = panic_signature(obs)
+                sig = panic_signature(obs, ending)
             elif m["k"] == "req" and m["method"] not in SUPPORTED:
                 sig = "C01:unanswered-unsupported-method"
             elif obs.get("busy"):
@@ -567,7 +594,7 @@ def evaluate(s, obs):
             else:
                 fails.append(("C01:spurious-response", "a response carries id %s, which no request had" % k))
     if obs.get("panicked"):
-        fails.append((panic_signature(obs), "stderr: %s" % obs.get("panic_msg", "")[:300].replace("\n", " ")))
+        fails.append((panic_signature(obs, ending), "stderr: %s" % obs.get("panic_msg", "")[:300].replace("\n", " ")))
     if ending in ("none", "shutdown-wait"):
         if not obs["alive"]:
             fails.append(("C01:server-died" if not obs.get("panicked") else panic_signature(obs),
@@ -672,6 +699,14 @@ def run(ctx):
             bad += 1
             if len(ctx.disagreements) < 50:
                 ctx.disagreements.append(("serve", line, impl, mod))
+    dpath = os.path.join(core.VERIF, "replays", "C01", "disagreements-%s.txt" % ctx.tier)
+    if os.path.exists(dpath):
+        os.remove(dpath)
+    if ctx.disagreements:
+        os.makedirs(os.path.dirname(dpath), exist_ok=True)
+        with open(dpath, "w", errors="surrogatepass") as f:
+            for _, l_, a_, m_ in ctx.disagreements:
+                f.write("%s\n   binary: %s\n   model : %s\n" % (l_, a_, m_))
     ctx.oblige("tie:correspondence:serve (%d scripts on the real binary)" % len(scripts), bad == 0,
                "%d disagreements; first: %s" % (bad, ctx.disagreements[0] if ctx.disagreements else ""))
     ctx.samples = [{"script": scripts[i].to_json()["msgs"][:8], "model_line": lines[i][:600], "binary": canon(observations[i], read_ids(scripts[i].msgs)[0]) if observations[i].get("init") else "no-init"}
